@@ -108,6 +108,15 @@ def generate(rng, tier):
     if gen.use_task:
         actors.append({"name": "d", "ops": [{"op": "sleep", "d": rng.choice(DELAYS)}
                                              for _ in range(rng.randint(0, 2))]})
+        if rng.random() < 0.3:
+            actors[-1]["after"] = rng.choice(DELAYS)
+        if rng.random() < 0.4:
+            # the task is cancelled - depending on the (shuffled) start order before its first
+            # turn, with waiters of `d.done` already subscribed, or somewhere in its payload
+            ops = [{"op": "postpone", "k": rng.randint(0, 2)}] if rng.random() < 0.6 else \
+                [{"op": "sleep", "d": rng.choice(DELAYS)}]
+            ops.append({"op": "cancel", "task": "d", "token": ["c08"]})
+            actors.append({"name": "canc", "ops": ops})
     wid = 0
     for e in range(rng.randint(1, 2)):
         tree = gen.expr(0)
